@@ -303,6 +303,7 @@ class _Explorer:
                     if v['t'] in TRACKED_TYPES or v['t'] == 'struct uchain *':
                         self.ptrvars.add(v['n'])
         self.ldefs = fn.local_defs()
+        self.objnames = {}
         self._liveness()
 
     def _liveness(self):
@@ -836,6 +837,7 @@ class _Explorer:
         if p:
             ok = self.cur_choice.get(n['i'], True)
             oid = 'R%s' % n['i']
+            self.objnames[oid] = '%s()' % name
             if ok:
                 # a second object from the same call site (loop) while the
                 # first one is still referenced gets its own identity
@@ -865,7 +867,9 @@ class _Explorer:
         for k, v in env.vars.items():
             if v == oid:
                 return k
-        return oid
+        if oid.startswith('P') and oid[1:].isdigit():
+            return self.fn.params[int(oid[1:])]['n']
+        return self.objnames.get(oid.rstrip('bc'), oid)
 
     def apply(self, act, oid, env, n, idx, name):
         if oid is None or oid == 'NULL' or oid not in env.objs:
